@@ -727,3 +727,52 @@ func statsNames(w *ecs.World) string {
 	}
 	return ""
 }
+
+// statsConsistent checks what World.Stats reports about tables against the world itself: per node the number of
+// entities is what an exclusive query over the node's components counts, the tables' sizes add up to it, and all
+// nodes together hold the entities in use.
+func statsConsistent(w *ecs.World) string {
+	if w.IsLocked() {
+		return ""
+	}
+	st := w.Stats()
+	ids := ecs.ComponentIDs(w)
+	total := 0
+	for k := range st.Nodes {
+		nd := &st.Nodes[k]
+		sum, active := 0, 0
+		for _, a := range nd.Archetypes {
+			if a.IsActive {
+				active++
+				sum += a.Size
+			} else if a.Size != 0 {
+				return fmt.Sprintf("node %d: a table that is not active is reported with %d entities", k, a.Size)
+			}
+		}
+		if !nd.IsActive {
+			continue
+		}
+		if sum != nd.Size || active != nd.ActiveArchetypeCount {
+			return fmt.Sprintf("node %d: Size %d / %d active tables, its tables add up to %d entities in %d active tables", k, nd.Size, nd.ActiveArchetypeCount, sum, active)
+		}
+		cids := []ecs.ID{}
+		for _, cid := range nd.ComponentIDs {
+			if int(cid) >= len(ids) {
+				return fmt.Sprintf("node %d lists component ID %d", k, cid)
+			}
+			cids = append(cids, ids[cid])
+		}
+		f := ecs.All(cids...).Exclusive()
+		q := w.Query(&f)
+		n := q.Count()
+		q.Close()
+		if n != nd.Size {
+			return fmt.Sprintf("node %d (components %v): Stats reports %d entities, a query for exactly these components counts %d", k, nd.ComponentIDs, nd.Size, n)
+		}
+		total += nd.Size
+	}
+	if total != st.Entities.Used {
+		return fmt.Sprintf("the nodes hold %d entities, Entities.Used is %d", total, st.Entities.Used)
+	}
+	return ""
+}
